@@ -332,4 +332,44 @@ def r_enum(ctx):
     repo_idioms(ctx, "C12.R6", ('connection', 'client', 'context', 'server'))
 
 
-RULES = [("C12.R1", r1), ("C12.R2", r2), ("C12.R3", r3), ("C12.R4", r4), ("C12.R5", r5), ("C12.R6", r_enum)]
+
+# who may take a connection down, confirmed by reading (one line of reason each)
+DOWN_SITES = {
+    "connection:ConnectionBase.__init__": "a new connection object starts DISCONNECTED",
+    "connection:ConnectionBase.disconnect": "explicit request of the application (or the server's final step of a peer-initiated disconnect)",
+    "connection:ConnectionBase._recvDisconnect": "the peer's authenticated DISCONNECT message",
+    "connection:ClientServerConnection.update": "client side: silence timeout (DROPPED, C12.R4) and connect timeout (DISCONNECTED, C12.R5)",
+    "connection:ClientServerConnection._recvServerHello": "the server hello failed signature verification (C02.R2)",
+    "connection:ServerClientConnection._recvChallengeResponse": "the challenge response carried the wrong token (C02.R5)",
+}
+
+
+def r_down(ctx):
+    """an idle, healthy connection goes down only by the liveness timeouts: every store of a 'down' status (DISCONNECTED,
+    DISCONNECTING, DROPPED) into a connection's status is at one of the enumerated sites; in particular no acknowledgement
+    timeout of an individual message (a callback) may take the connection down - acks travel only in the peer's next datagram,
+    so a message timeout shorter than the peer's keep-alive interval would drop a working link"""
+    found = {}
+    for a in attr_accesses(ctx.repo, "status"):
+        if a.kind != "store" or a.fi.module.name not in ("connection", "client", "server", "context", "twisted") or not isinstance(a.stmt, ast.Assign):
+            continue
+        v = ctx.folder.fold(a.stmt.value, a.fi.module, cls=a.fi.cls)
+        member = getattr(v, "member", None)
+        if member is None:
+            t = norm(a.stmt.value)
+            member = t.split(".")[-1] if t.startswith("ConnectionStatus.") else None
+        if member in ("DISCONNECTED", "DISCONNECTING", "DROPPED"):
+            found.setdefault(a.fi.qual, []).append(a)
+    ctx.expect("C12.R7", "functions that take a connection down", len(found), 4)
+    for q, accs in sorted(found.items()):
+        if q in DOWN_SITES:
+            ctx.holds("C12.R7", accs[0].fi, "status = down in %s" % q.split(":")[1], DOWN_SITES[q])
+        else:
+            for a in accs:
+                ctx.violated("C12.R7", a.fi, a.stmt, "the connection is taken down outside the enumerated causes (liveness timeouts, explicit or peer disconnect, failed handshake)",
+                             witness={"site": q, "allowed": sorted(DOWN_SITES)}, line=a.stmt.lineno)
+
+
+EXPLANATION = EXPLANATION + " (R7) a connection's status is set to DISCONNECTED / DISCONNECTING / DROPPED only at the six enumerated sites (liveness timeouts, explicit or peer disconnect, failed handshake): no per-message acknowledgement timeout takes a working link down."
+
+RULES = [("C12.R1", r1), ("C12.R2", r2), ("C12.R3", r3), ("C12.R4", r4), ("C12.R5", r5), ("C12.R6", r_enum), ("C12.R7", r_down)]
